@@ -35,6 +35,11 @@ CHECKS = {
                   'statistic == sum over used bins, ndf == number of used bins, p-value == sf(statistic, ndf), verdict <=> all p > alpha, '
                   'order independence, undefined statistic never passes. Bounded by <= 4 bins.',
              design='DESIGN.md section 4 C07'),
+ 'C17': dict(technique='bounded symbolic execution of the real Browser/Index code (symrun + z3) with symbolic-equality keys: dict/set partition metadata values by solver-decided equality; differential against the naive scan',
+             text='For item lists of <= 3 (4) items over <= 2 metadata keys with ARBITRARY hashable values (only equality observable), all '
+                  'presence patterns, queries, include/exclude sets and 1-2 step chains, on every path (one per feasible equality pattern) the '
+                  'result items/order/data identity/globals/data_key, select_by exceptions, merge and immutability of browsers and inputs are decided.',
+             design='DESIGN.md section 4 C17'),
 }
 
 NOT_YET = {}
